@@ -354,3 +354,17 @@ Proof.
   intros G R. pose proof (inv_reachable _ _ _ G R) as I. split; [apply I|].
   eapply Forall_impl; [|exact (I_wf s I)]. intros w. apply wf_pre.
 Qed.
+
+(** * Whenever the caller is outside the wait loop, all workers are past their decrement
+
+    [pool.rs] drops the caller's caught panic payload after the loop (line 131).
+    If that destructor panics, the panic escapes from [broadcast]; by this
+    theorem nothing is left behind: no worker still holds the task block. *)
+Theorem caller_past_loop c scr s :
+  good c -> reachable c scr s -> in_broadcast (cst s) = false ->
+  alive s = false /\ Forall (fun w => any_pre w = false) (ws s).
+Proof.
+  intros G R B. pose proof (inv_reachable _ _ _ G R) as I. split.
+  - now rewrite (I_alive s I).
+  - now apply no_pre_idle.
+Qed.
